@@ -26,10 +26,10 @@ def reg(width):
         class R(csr.Register, access="rw"):
             def __init__(self, w):
                 super().__init__({"f": csr.Field(action.RW, w)})
-        _POOL[width] = [R(width) for _ in range(8)]
+        _POOL[width] = [R(width) for _ in range(10)]
     k = _NEXT.get(width, 0)
     _NEXT[width] = k + 1
-    return _POOL[width][k % 8]
+    return _POOL[width][k % 10]
 
 
 def clog2(n):
@@ -43,6 +43,10 @@ def letters_for_cfg(cfg):
         # scope bookkeeping needs longer histories (re-entering a name / an index that is already open)
         return [("cluster", "a"), ("cluster", "k"), ("index", 0), ("index", 1), ("leave",), ("add", "r", 1, None),
                 ("add", "s", dw + 1, None), ("raise_out",)]
+    if cfg.get("alphabet") == "many":
+        # long histories of valid additions (fresh positional names): 5+ registers, wide ones, explicit offsets in between
+        return ([("addp", w, None) for w in (1, dw + 1, 3 * dw, 5 * dw)] + [("addp", 1, k * ratio) for k in (1, 6, 11)]
+                + [("addp", 2 * dw, 12 * ratio), ("addp", 3 * dw, 21 * ratio)])
     L = []
     widths = [0, 1, dw, dw + 1, 3 * dw]
     for name in ("a", "b"):
@@ -119,6 +123,11 @@ def execute_factory(cfg):
                     if first_reg is None:
                         first_reg = r
                     regs.append((tuple(scopes) + (name,), w, off))
+                elif kind == "addp":
+                    _, w, off = op
+                    exp_ok = not frozen
+                    b.add(f"n{pos}", reg(w), offset=off)
+                    regs.append((tuple(scopes) + (f"n{pos}",), w, off))
                 elif kind == "add_notreg":
                     exp_ok = False
                     b.add(op[1], object())
@@ -207,6 +216,8 @@ def configs(tier):
     depth = 3 if tier == "quick" else 4
     out = [dict(g_, depth=depth + (1 if (tier == "quick" and k in (1, 3)) else 0)) for k, g_ in enumerate(geos)]
     out.append(dict(aw=4, dw=8, g=8, alphabet="scopes", depth=6 if tier == "quick" else 8))
+    out.append(dict(aw=5, dw=8, g=8, alphabet="many", depth=5 if tier == "quick" else 7))
+    out.append(dict(aw=5, dw=32, g=16, alphabet="many", depth=4 if tier == "quick" else 6))
     if tier != "quick":
         out += [dict(aw=2, dw=8, g=8, depth=5), dict(aw=3, dw=64, g=16, depth=3), dict(aw=4, dw=8, g=4, depth=3)]
     return out
